@@ -132,6 +132,85 @@ theorem accepted_listeners_startable (E : ListenEnv) (handled : List Str)
         · exact ⟨accepted_listener_startable E handled hsub m _ hl0, accepted_listener_addr E m _ hl0⟩
         · exact ih ls0 hls0 l hl
 
+/-! ### composed with `load` -/
+
+/-- an accepted configuration passed `extra`, and carries the resolved values it was computed from -/
+theorem validate_extra (unq : Str → Option Str) (atoi : Str → Int) (extra : List Resolved → Option Err)
+    (vals : List Resolved) (cfg : Cfg) (h : validate unq atoi extra vals = .ok (.ok cfg)) :
+    extra vals = none ∧ cfg.values = vals := by
+  unfold validate at h
+  repeat' (split at h)
+  all_goals first
+    | (cases h; done)
+    | (injection h with h; injection h with h; subst h; exact ⟨by assumption, rfl⟩)
+
+/-- **An accepted configuration can be run, as far as its listeners go** (end to end: command line after
+tokenisation, environment block, prefixes, properties → `load` with the listener rules of `parseListen` in place →
+`main.startServers`): if `load` accepts, then `cfg.Listen` and `cfg.UI.Listen` are well-defined, every proxy
+listener has an address and a protocol that `startServers` has a case for, and so has the UI listener when
+`ui.addr` is not empty.  `handled` = the case literals of the switch in `main.go` (regenerated;
+`C15Facts.listen_protos_handled` is `hsub`). -/
+theorem accepted_config_listeners_startable (unq : Str → Option Str) (atoi : Str → Int) (X : ListenExt)
+    (rest : List Resolved → Option Err) (flags : List (Str × Str)) (s : Sources) (handled : List Str)
+    (hsub : ∀ p ∈ acceptedProtos, p ∈ handled) (cfg : Cfg)
+    (h : loadModel unq atoi (listenExtra unq X rest) flags s = .ok (.ok cfg)) :
+    ∃ ls ui, listenersOf unq X cfg.values = .ok (ls, ui) ∧
+      (∀ l ∈ ls, startable handled l = true ∧ l.addr ≠ []) ∧
+      (∀ l, ui = some l → startable handled l = true ∧ l.addr ≠ []) := by
+  unfold loadModel at h
+  split at h
+  · cases h
+  · obtain ⟨hex, hv⟩ := validate_extra _ _ _ _ _ h
+    rw [hv]
+    generalize cfg_vals : (flags.map _) = vals at hex
+    unfold listenExtra at hex
+    cases hl : listenersOf unq X vals with
+    | error e => rw [hl] at hex; cases hex
+    | ok r =>
+      obtain ⟨ls, ui⟩ := r
+      refine ⟨ls, ui, rfl, ?_, ?_⟩
+      · unfold listenersOf at hl
+        simp only at hl
+        split at hl
+        · cases hl
+        · split at hl
+          · split at hl
+            · cases hl
+            · rename_i ls' hls
+              injection hl with hl
+              injection hl with h1 h2
+              subst h1
+              exact accepted_listeners_startable _ handled hsub _ _ hls
+          · cases hl
+      · intro l hui
+        unfold listenersOf at hl
+        simp only at hl
+        split at hl
+        · cases hl
+        · rename_i u hu
+          have hu' : u = ui := by
+            split at hl
+            · split at hl
+              · cases hl
+              · injection hl with hl; injection hl with h1 h2
+            · cases hl
+          subst hu'
+          subst hui
+          split at hu
+          · cases hu
+          · split at hu
+            · rename_i m _
+              cases hm : parseListenM (listenEnvOf unq X vals) m with
+              | error e => rw [hm] at hu; cases hu
+              | ok l' =>
+                rw [hm] at hu
+                simp only [Except.map] at hu
+                injection hu with hu
+                injection hu with hu
+                subst hu
+                exact ⟨accepted_listener_startable _ handled hsub m _ hm, accepted_listener_addr _ m _ hm⟩
+            · cases hu
+
 /-- the inclusion is needed: with a switch that lacks a case, an accepted listener reaches the fatal default -/
 theorem missing_case_not_startable :
     startable ["http".toList, "https".toList] { addr := ":1".toList, proto := "grpc".toList, cs := [] } = false := by
@@ -158,6 +237,24 @@ example : parseListenM envEx [([], ":1".toList), ("proto".toList, "grpc".toList)
 example : parseListenM envEx [("proto".toList, "tcp".toList)] = .error .needAddr := by decide
 example : parseListenM envEx [([], ":1".toList), ("addr".toList, ":2".toList)] = .error .twoAddrs := by decide
 example : parseListenM envEx [([], ":1".toList), ("rt".toList, "x".toList)] = .error (.field "rt".toList) := by decide
+/-- through `load`: a default configuration with two proxy listeners and a certificate source is accepted, its
+listeners are what `listenersOf` says; one upper-case protocol name makes `load` reject the configuration -/
+def extEx : ListenExt := { addrOf := fun a => some a, fieldOK := fun _ v => v = "1s".toList }
+def flagsEx : List (Str × Str) :=
+  [("proxy.strategy".toList, "rnd".toList), ("proxy.matcher".toList, "prefix".toList),
+   ("ui.access".toList, "rw".toList), ("ui.addr".toList, ":9998".toList), ("proxy.addr".toList, ":9999".toList),
+   ("proxy.cs".toList, []), ("glob.cache.size".toList, "1000".toList)]
+def atoiEx (s : Str) : Int := (atoiDec s).getD 0
+example : ((loadModel unquote atoiEx (listenExtra unquote extEx (fun _ => none)) flagsEx
+    { cmd := [("proxy.addr".toList, ":1;cs=a,:2;proto=grpc".toList), ("proxy.cs".toList, "cs=a;type=file".toList)],
+      environ := [], prefixes := [], props := none }).map (·.map (fun c => listenersOf unquote extEx c.values)))
+    = .ok (.ok (.ok ([{ addr := ":1".toList, proto := "https".toList, cs := "a".toList },
+                      { addr := ":2".toList, proto := "grpc".toList, cs := [] }],
+                     some { addr := ":9998".toList, proto := "http".toList, cs := [] }))) := by rfl
+example : ((loadModel unquote atoiEx (listenExtra unquote extEx (fun _ => none)) flagsEx
+    { cmd := [], environ := ["fabio_proxy_addr=:1;proto=HTTP".toList], prefixes := ["FABIO_".toList, []], props := none }).map
+      (·.map (fun _ => ()))) = .ok (.error (.other "listener".toList)) := by rfl
+
 example : parseListenersM envEx [[([], ":1".toList)], [([], ":2".toList), ("proto".toList, "grpc".toList)]] =
     .ok [{ addr := ":1".toList, proto := "http".toList, cs := [] }, { addr := ":2".toList, proto := "grpc".toList, cs := [] }] := by decide
 end Examples
